@@ -1054,3 +1054,36 @@ func asBool(o Object) Boolean {
 //@ ensures [C02.dictend.odd] (exists m :: 0 <= m && m < old(depth(intp)) && isMark(old(intp.Stack[m])) && (forall j :: m < j && j < old(depth(intp)) ==> !isMark(old(intp.Stack[j]))) && (old(depth(intp)) - m) % 2 == 0) ==> isPSErr(result, eRangecheck)
 //@ loop 1 invariant [C02.dictend] -1 <= i && i < n && n == old(depth(intp)) && markPos == -1 && sameslice(intp.Stack, old(intp.Stack)) && (forall j :: i < j && j < n ==> !isMark(intp.Stack[j])) && (forall j :: 0 <= j && j < n ==> intp.Stack[j] == old(intp.Stack[j]))
 //@ loop 2 invariant [C02.dictend] n == old(depth(intp)) && 0 <= markPos && markPos < n && (n - markPos) % 2 == 1 && markPos < i && i <= n && (i - markPos) % 2 == 1 && d != nil && fresh(d) && sameslice(intp.Stack, old(intp.Stack)) && isMark(intp.Stack[markPos]) && (forall j :: markPos < j && j < n ==> !isMark(intp.Stack[j])) && (forall j :: 0 <= j && j < n ==> intp.Stack[j] == old(intp.Stack[j]))
+
+// type, where, currentdict, dict, mark (PLRM 8.2).
+//@ func bType
+//@ ensures [C02.type.underflow] old(depth(intp)) < 1 ==> isPSErr(result, eStackunderflow) && depth(intp) == old(depth(intp))
+//@ ensures [C02.type.int] old(depth(intp)) >= 1 && isInt(old(top(intp, 0))) ==> result == nil && depth(intp) == old(depth(intp)) && top(intp, 0) == Name("integertype") && stackFrame(intp, 1)
+//@ ensures [C02.type.real] old(depth(intp)) >= 1 && isReal(old(top(intp, 0))) ==> result == nil && depth(intp) == old(depth(intp)) && top(intp, 0) == Name("realtype") && stackFrame(intp, 1)
+//@ ensures [C02.type.bool] old(depth(intp)) >= 1 && isBool(old(top(intp, 0))) ==> result == nil && depth(intp) == old(depth(intp)) && top(intp, 0) == Name("booleantype") && stackFrame(intp, 1)
+//@ ensures [C02.type.string] old(depth(intp)) >= 1 && isType(old(top(intp, 0)), String) ==> result == nil && depth(intp) == old(depth(intp)) && top(intp, 0) == Name("stringtype") && stackFrame(intp, 1)
+//@ ensures [C02.type.name] old(depth(intp)) >= 1 && isType(old(top(intp, 0)), Name) ==> result == nil && depth(intp) == old(depth(intp)) && top(intp, 0) == Name("nametype") && stackFrame(intp, 1)
+//@ ensures [C02.type.array] old(depth(intp)) >= 1 && (isType(old(top(intp, 0)), Array) || isType(old(top(intp, 0)), Procedure)) ==> result == nil && depth(intp) == old(depth(intp)) && top(intp, 0) == Name("arraytype") && stackFrame(intp, 1)
+//@ ensures [C02.type.dict] old(depth(intp)) >= 1 && isType(old(top(intp, 0)), Dict) ==> result == nil && depth(intp) == old(depth(intp)) && top(intp, 0) == Name("dicttype") && stackFrame(intp, 1)
+//@ ensures [C02.type.mark] old(depth(intp)) >= 1 && isMark(old(top(intp, 0))) ==> result == nil && depth(intp) == old(depth(intp)) && top(intp, 0) == Name("marktype") && stackFrame(intp, 1)
+
+//@ func bWhere
+//@ ensures [C02.where.underflow] old(depth(intp)) < 1 ==> isPSErr(result, eStackunderflow) && depth(intp) == old(depth(intp))
+//@ ensures [C02.where.type] old(depth(intp)) >= 1 && !isType(old(top(intp, 0)), Name) ==> isPSErr(result, eTypecheck) && depth(intp) == old(depth(intp))
+//@ ensures [C02.where.found] old(depth(intp)) >= 1 && isType(old(top(intp, 0)), Name) && isBool(top(intp, 0)) && bool(asBool(top(intp, 0))) ==> result == nil && depth(intp) == old(depth(intp)) + 1 && isType(top(intp, 1), Dict) && stackFrame(intp, 1) && (exists j :: 0 <= j && j < len(intp.DictStack) && intp.DictStack[j] == top(intp, 1).(Dict) && has(intp.DictStack[j], old(top(intp, 0)).(Name)) && (forall k :: j < k && k < len(intp.DictStack) ==> !has(intp.DictStack[k], old(top(intp, 0)).(Name))))
+//@ ensures [C02.where.notfound] old(depth(intp)) >= 1 && isType(old(top(intp, 0)), Name) && (forall k :: 0 <= k && k < len(intp.DictStack) ==> !has(intp.DictStack[k], old(top(intp, 0)).(Name))) ==> result == nil && depth(intp) == old(depth(intp)) && isBool(top(intp, 0)) && !bool(asBool(top(intp, 0))) && stackFrame(intp, 1)
+//@ ensures [C02.where.present] old(depth(intp)) >= 1 && isType(old(top(intp, 0)), Name) && (exists k :: 0 <= k && k < len(intp.DictStack) && has(intp.DictStack[k], old(top(intp, 0)).(Name))) ==> result == nil && depth(intp) == old(depth(intp)) + 1 && isBool(top(intp, 0)) && bool(asBool(top(intp, 0)))
+//@ loop 1 invariant [C02.where] -1 <= j && j < len(intp.DictStack) && depth(intp) == old(depth(intp)) - 1 && (forall k :: j < k && k < len(intp.DictStack) ==> !has(intp.DictStack[k], key)) && (forall i :: 0 <= i && i < depth(intp) ==> intp.Stack[i] == old(intp.Stack[i]))
+
+//@ func bCurrentdict
+//@ ensures [C02.currentdict] result == nil && depth(intp) == old(depth(intp)) + 1 && isType(top(intp, 0), Dict) && top(intp, 0).(Dict) == curDict(intp) && stackFrame(intp, 0)
+
+//@ func bDict
+//@ ensures [C02.dict.underflow] old(depth(intp)) < 1 ==> isPSErr(result, eStackunderflow) && depth(intp) == old(depth(intp))
+//@ ensures [C02.dict.type] old(depth(intp)) >= 1 && !isInt(old(top(intp, 0))) ==> isPSErr(result, eTypecheck) && depth(intp) == old(depth(intp))
+//@ ensures [C02.dict.negative] old(depth(intp)) >= 1 && isInt(old(top(intp, 0))) && asInt(old(top(intp, 0))) < 0 ==> isPSErr(result, eRangecheck) && depth(intp) == old(depth(intp))
+//@ ensures [C02.dict.limit] old(depth(intp)) >= 1 && isInt(old(top(intp, 0))) && asInt(old(top(intp, 0))) > 65536 ==> isPSErr(result, eLimitcheck) && depth(intp) == old(depth(intp))
+//@ ensures [C02.dict] old(depth(intp)) >= 1 && isInt(old(top(intp, 0))) && 0 <= asInt(old(top(intp, 0))) && asInt(old(top(intp, 0))) <= 65536 ==> result == nil && depth(intp) == old(depth(intp)) && stackFrame(intp, 1) && isType(top(intp, 0), Dict) && fresh(top(intp, 0).(Dict)) && len(top(intp, 0).(Dict)) == 0
+
+//@ func bMark
+//@ ensures [C02.mark] result == nil && depth(intp) == old(depth(intp)) + 1 && isMark(top(intp, 0)) && stackFrame(intp, 0)
